@@ -50,11 +50,15 @@ theorem lb_consumeAll_single (st : LB.St) (bs : List Byte) :
     LB.consumeAll st [bs] = LB.consume st bs := by
   simp [LB.consumeAll]
 
-theorem index_chunk_independent (pick : Pick) (chunks : List (List Byte)) :
-    index pick chunks = index pick [chunks.flatten] := by
-  unfold index
+theorem preIndex_chunk_independent (pick : Pick) (chunks : List (List Byte)) :
+    preIndex pick chunks = preIndex pick [chunks.flatten] := by
+  unfold preIndex
   rw [consumeAll_eq _ _ (by exact LB.inv_init), consumeAll_eq _ _ (by exact LB.inv_init)]
   rw [LB.chunk_independent _ _ (by exact LB.inv_init), lb_consumeAll_single]
+
+theorem index_chunk_independent (pick : Pick) (chunks : List (List Byte)) :
+    index pick chunks = index pick [chunks.flatten] := by
+  unfold index; rw [preIndex_chunk_independent]
 
 /-! ### little-endian integers -/
 
